@@ -92,19 +92,76 @@ Proof.
     + rewrite P2. exact E1.
 Qed.
 
+(* what an append does when the roller rotates and THEN reports failure *)
+Lemma append_op_fail_after_spec : forall c chunks s, Good s ->
+  let v := content (files s) Active in
+  let r := concat chunks in
+  let s' := fst (fst (append_op_fail_after c chunks s)) in
+  let ev := snd (fst (append_op_fail_after c chunks s)) in
+  let err := snd (append_op_fail_after c chunks s) in
+  Good s' /\ consults s' = S (consults s) /\ fired s' = fired_after (trig c) (fired s)
+  /\ if is_pre (trig c) then
+       let fire := trigger_fire (trig c) s (blen v) in
+       ev = EConsult (blen v) (blen v) fire :: (if fire then [] else [EWrote r])
+       /\ err = fire
+       /\ (fire = true -> files s' = do_roll (roll_by c) (files (get_writer s)) /\ writer s' = None)
+       /\ (fire = false -> s' = fst (append_op c chunks s))
+     else
+       let fire := trigger_fire (trig c) s (blen (v ++ r)) in
+       ev = [EWrote r; EConsult (blen (v ++ r)) (blen (v ++ r)) fire]
+       /\ err = fire
+       /\ s' = fst (append_op c chunks s).
+Proof.
+  intros c chunks s HG v r.
+  destruct (get_writer_spec s HG) as (G0 & L0 & W0 & A0 & F0 & C0).
+  fold v in L0, W0.
+  pose proof (append_op_spec c chunks s HG) as SP. cbv zeta in SP. fold v r in SP.
+  destruct SP as (SG & SC & SF & SR).
+  unfold append_op_fail_after. unfold append_op in SG, SC, SF, SR |- *. destruct (is_pre (trig c)) eqn:Hpre.
+  - destruct (process_spec c (get_writer s) v L0 W0) as (P1 & P2 & P3 & P4 & P5 & P6).
+    rewrite (trigger_fire_ext _ s (get_writer s)) in P1, P2, P3 by assumption.
+    destruct (process c (get_writer s)) as [s1 ev1]; cbv beta iota zeta in SG, SC, SF, SR |- *; cbn [fst snd] in *.
+    set (fire := trigger_fire (trig c) s (blen v)) in *.
+    destruct fire.
+    + rewrite P3. cbn [fst snd]. repeat split.
+      * rewrite P4. apply G0.
+      * intros len H. rewrite P3 in H. discriminate.
+      * rewrite P6, C0. reflexivity.
+      * rewrite P5, F0. reflexivity.
+      * exact P1.
+      * exact P2.
+      * exact P3.
+      * intros X; discriminate.
+    + rewrite P3. cbn [fst snd]. destruct SR as (Sev & _). destruct SG as [SG1 SG2].
+      repeat split; auto; try discriminate.
+  - destruct (encode_flush_spec chunks _ _ L0 W0) as (E1 & E2 & E3 & E4 & E5 & E6).
+    fold r in E1, E2.
+    destruct (process_spec c _ _ E1 E2) as (P1 & P2 & P3 & P4 & P5 & P6).
+    rewrite (trigger_fire_ext _ s (encode_flush chunks (get_writer s))) in P1, P2, P3 by congruence.
+    destruct (process c (encode_flush chunks (get_writer s))) as [s2 ev2]; cbv beta iota zeta in SG, SC, SF, SR |- *; cbn [fst snd] in *.
+    set (fire := trigger_fire (trig c) s (blen (v ++ r))) in *.
+    destruct SR as (Sev & _). destruct SG as [SG1 SG2]. repeat split; auto.
+    rewrite P3. destruct fire; reflexivity.
+Qed.
+
 Lemma xstep_good : forall c o s, Good s -> Good (fst (fst (xstep c o s))).
 Proof.
-  intros c [o|chunks] s HG; cbn [xstep fst].
+  intros c [o|chunks|chunks] s HG; cbn [xstep fst].
   - apply step_good, HG.
   - apply (append_op_fail_spec c chunks s HG).
+  - apply (append_op_fail_after_spec c chunks s HG).
 Qed.
 
 Lemma xstep_consult_exact : forall c o s, Good s ->
   Forall consult_exact (snd (fst (xstep c o s))).
 Proof.
-  intros c [o|chunks] s HG; cbn [xstep fst snd].
+  intros c [o|chunks|chunks] s HG; cbn [xstep fst snd].
   - apply step_consult_exact, HG.
   - destruct (append_op_fail_spec c chunks s HG) as (_ & _ & _ & _ & H).
+    destruct (is_pre (trig c)); destruct H as (-> & _).
+    + destruct (trigger_fire _ _ _); repeat constructor.
+    + repeat constructor.
+  - destruct (append_op_fail_after_spec c chunks s HG) as (_ & _ & _ & H).
     destruct (is_pre (trig c)); destruct H as (-> & _).
     + destruct (trigger_fire _ _ _); repeat constructor.
     + repeat constructor.
@@ -180,11 +237,31 @@ Proof.
     rewrite Hsz in Hev, Herr. cbn [trigger_fire] in Hev, Herr. auto.
 Qed.
 
+(* C06: the same for a roller that rotates and THEN reports failure: the policy is consulted with the true size,
+   a rotation is requested iff the size exceeds the limit, the call returns Err exactly then - and the appender is
+   left exactly as after a successful rotation (directory rotated, writer slot empty, counters advanced) *)
+Theorem size_append_fail_after_x : forall limit rl s chunks,
+  let c := {| trig := TSize limit; roll_by := rl |} in
+  xreach c s ->
+  let sz := (disk_len (files s) + blen (concat chunks))%N in
+  snd (fst (append_op_fail_after c chunks s)) = [EWrote (concat chunks); EConsult sz sz (limit <? sz)%N]
+  /\ snd (append_op_fail_after c chunks s) = (limit <? sz)%N
+  /\ fst (fst (append_op_fail_after c chunks s)) = fst (append_op c chunks s).
+Proof.
+  intros limit rl s chunks c HR sz.
+  pose proof (xreach_good _ _ HR) as HG.
+  assert (Hsz : blen (content (files s) Active ++ concat chunks) = sz).
+  { unfold sz. rewrite blen_app, disk_len_content. reflexivity. }
+  destruct (append_op_fail_after_spec c chunks s HG) as (_ & _ & _ & H).
+  cbn [is_pre trig c] in H. destruct H as (Hev & Herr & Hst).
+  rewrite Hsz in Hev, Herr. cbn [trigger_fire] in Hev, Herr. auto.
+Qed.
+
 (* ------------------------------------------------------------------ *)
 (* C17 with failing rolls                                              *)
 
 Definition xappend (o : xop) : bool :=
-  match o with XOp (Append _) => true | XAppendFail _ => true | _ => false end.
+  match o with XOp (Append _) => true | XAppendFail _ => true | XAppendFailAfter _ => true | _ => false end.
 
 Lemma xstep_startup : forall m rl o s,
   let c := {| trig := TStartup m; roll_by := rl |} in
@@ -193,10 +270,14 @@ Lemma xstep_startup : forall m rl o s,
   rolls (snd (fst (xstep c o s))) = (if fire then 1 else 0)
   /\ fired (fst (fst (xstep c o s))) = true.
 Proof.
-  intros m rl [[chunks|a]|chunks] s c HG Hx fire; try discriminate; cbn [xstep fst snd step].
+  intros m rl [[chunks|a]|chunks|chunks] s c HG Hx fire; try discriminate; cbn [xstep fst snd step].
   - destruct (startup_append m rl s chunks HG) as (Hev & HF & _). fold c in Hev, HF.
     rewrite Hev. fold fire. split; [destruct fire; reflexivity|exact HF].
   - destruct (append_op_fail_spec c chunks s HG) as (_ & _ & HF & _ & H).
+    cbn [is_pre trig c trigger_fire fired_after] in H, HF.
+    rewrite <- disk_len_content in H. destruct H as (Hev & _). fold fire in Hev.
+    rewrite Hev. split; [destruct fire; reflexivity|exact HF].
+  - destruct (append_op_fail_after_spec c chunks s HG) as (_ & _ & HF & H).
     cbn [is_pre trig c trigger_fire fired_after] in H, HF.
     rewrite <- disk_len_content in H. destruct H as (Hev & _). fold fire in Hev.
     rewrite Hev. split; [destruct fire; reflexivity|exact HF].
